@@ -4,12 +4,15 @@
   and the wrapper validation, all on the ASCII string functions.
 
   Wire: mapper = "lower" | "camel" | {"d": [[key, val], …]}, val = "str" | {"dns": true} | {"d": […]};
-  class attr = null | mapper | {"list": [mapper…]}; class = {"hier": [attr…], "fields": [fld…]};
+  class attr = null | mapper | {"list": [mapper…]};
+  class = {"graph": [{"name", "bases": [name…], "ser": attr, "des": attr, "closed": bool}…] (definition order),
+           "top": name, "fields": [fld…]};
   fld = {"n", "opt"} | {"n", "opt", "shape": "one"|"many", "cls": class};
   JSON tree = null | int | "str" | [tree…] | {"o": [[key, tree], …]}.
 -/
 import Lean.Data.Json
 import TypedpyModel.Spec.Mappers
+import TypedpyModel.Sem.MapperMro
 namespace Typedpy.Drive.Mapper
 open Lean (Json)
 open Typedpy.Mappers
@@ -49,11 +52,22 @@ def attrOfJson (j : Json) : Except String (Option ClassAttr) :=
       pure (some (.many ms))
     else do pure (some (.single (← mapperOfJson x)))
 
+def nodeOfJson (j : Json) : Except String ClsNode := do
+  let name ← (← j.getObjVal? "name").getStr?
+  let bases ← (← (← j.getObjVal? "bases").getArr?).toList.mapM (·.getStr?)
+  let ser ← attrOfJson (← j.getObjVal? "ser")
+  let des ← attrOfJson ((j.getObjVal? "des").toOption.getD .null)
+  let closed := match j.getObjVal? "closed" with | .ok (.bool b) => b | _ => false
+  pure { name, bases, ser, des, closed }
+
 mutual
 partial def clsOfJson (j : Json) : Except String Cls := do
-  let hier ← (← (← j.getObjVal? "hier").getArr?).toList.mapM attrOfJson
+  let g ← (← (← j.getObjVal? "graph").getArr?).toList.mapM nodeOfJson
+  let top ← (← j.getObjVal? "top").getStr?
   let fields ← (← (← j.getObjVal? "fields").getArr?).toList.mapM fldOfJson
-  pure ⟨collect none hier, fields⟩
+  let ci := cinfoOf g top
+  let cid := match j.getObjVal? "cid" with | .ok (.str n) => n | _ => ""
+  pure { own := ci.ser, fields, des := ci.des, closedOwn := ci.closedOwn, closedAny := ci.closedAny, cid }
 partial def fldOfJson (j : Json) : Except String Fld := do
   let n ← (← j.getObjVal? "n").getStr?
   let opt ← (← j.getObjVal? "opt").getBool?
@@ -61,7 +75,8 @@ partial def fldOfJson (j : Json) : Except String Fld := do
   | .ok cj => do
     let c ← clsOfJson cj
     let sh ← (← j.getObjVal? "shape").getStr?
-    pure (.nested n opt (if sh == "one" then .one else .many) c.own c.fields)
+    pure (.nested n opt (if sh == "one" then .one else .many)
+      { ser := c.own, des := c.des, closedOwn := c.closedOwn, closedAny := c.closedAny, cid := c.cid } c.fields)
   | .error _ => pure (.scalar n opt)
 end
 
@@ -98,6 +113,36 @@ def resToJson (r : DR J) : Json :=
   | .error .typeErr => Json.mkObj [("err", .str "TypeError")]
   | .error .valueErr => Json.mkObj [("err", .str "ValueError")]
 
+/-- evidence only: the first clause of `regionOK` that fails (empty when inside the region) -/
+partial def regionWhyFs (S : StrFns) (camel : Bool) (L : List Mapper) (depth : Nat) : List Fld → String
+  | [] => ""
+  | .scalar _ _ :: fs => regionWhyFs S camel L depth fs
+  | .nested n _ _ ci fs' :: fs =>
+    let L' := ci.ser ++ enumsOf L
+    let here :=
+      if !ci.des.isNone then "nested-deserialization-mapper"
+      else if !trackOK S L n then "nested-entry-not-tracked"
+      else if !ci.ser.all plainMapper then "nested-own-mapper-not-plain"
+      else if fs'.isEmpty then "nested-class-empty"
+      else if !prefixOK S fs' [] L' then "nested-rekey-collision"
+      else if !reaggOK S L' fs' then
+        (if fs'.any (fun f => match f with | .nested _ _ _ c2 _ => !(c2.ser.isEmpty && c2.desL.isEmpty) | _ => false)
+         then (if (enumsOf L').isEmpty then s!"own-mapper-at-depth>={depth + 2}:other"
+               else s!"own-mapper-at-depth>={depth + 2}-under-an-enum-mapper")
+         else "reaggregation-level-not-ok")
+      else if !mkeysNodup (shapeFields S (L' ++ camelTail camel) fs') then "camel-round-collision"
+      else regionWhyFs S camel (L' ++ camelTail camel) (depth + 1) fs'
+    if here != "" then here else regionWhyFs S camel L depth fs
+
+def regionWhy (S : StrFns) (c : Cls) (ov : Option MDict) (camel : Bool) : String :=
+  let L := effList c.own ov camel
+  if !c.des.isNone then "deserialization-mapper"
+  else if !wfFields c.fields then "duplicate-field-names"
+  else if !L.all plainMapper then "top-mapper-not-plain(nested-entry-or-dict-value)"
+  else if !prefixOK S c.fields [] L then "top-rekey-collision"
+  else if !mkeysNodup (shapeFields S L c.fields) then "top-keys-collide"
+  else regionWhyFs S camel L 0 c.fields
+
 def optField (j : Json) (k : String) : Option Json :=
   match j.getObjVal? k with
   | .ok .null => none
@@ -110,6 +155,11 @@ def runOne (cache : Cache) (j : Json) : Except String (List (String × Json) × 
   let c ← clsOfJson (← j.getObjVal? "cls")
   let camel ← (← j.getObjVal? "camel").getBool?
   let strict ← (← j.getObjVal? "strict").getBool?
+  -- `keep_undefined` as it reaches deserialize_structure_internal: "auto" = Deserializer's default
+  -- (on exactly when the target class forbids additional properties)
+  let ku := match optField j "ku" with
+    | some (.bool b) => b
+    | _ => c.closedAny
   let ov ← match optField j "explicit" with
     | none => pure none
     | some x => do pure (some (← mdictOfJson x))
@@ -123,13 +173,13 @@ def runOne (cache : Cache) (j : Json) : Except String (List (String × Json) × 
     | _, _ => ""
   let wrapOk := wrapperOk S (c.fields.map Fld.name) ovKeys
   -- the serializer runs (and fills the cache) only if the wrapper was built
-  let (ms, cache') := if wrapOk then cachedAggregate S cache cid ovKey c.own c.fields ov camel
+  let (ms, cache') := if wrapOk then cAggregate S cache cid ovKey c.own c.fields ov camel
     else (aggregate S true c.own c.fields ov camel, cache)
-  let md := aggregate S false c.own c.fields ov camel
+  let md := aggregate S false c.desL c.fields ov camel
   let doc := ser S camel ms x
   let spec := specSer S (effList c.own ov camel) c.fields x
   let xc ← treeOfJson (← j.getObjVal? "inst_canon")
-  let des := deser S camel c ov strict doc
+  let des := deserK S camel ku c ov strict doc
   let kvs := match xc with | .obj kvs => kvs | _ => []
   let base := [
     ("ser", treeToJson doc),
@@ -140,9 +190,19 @@ def runOne (cache : Cache) (j : Json) : Except String (List (String × Json) × 
     ("aggD", mvToJson (.sub md)),
     ("wrapper", Json.bool wrapOk),
     ("cacheHit", Json.bool (cache'.length == cache.length && wrapOk)),
+    -- the entries this call filed in the process-wide cache (nested classes first)
+    ("cacheNew", Json.arr ((cache'.drop cache.length).map fun (k, m) =>
+      Json.arr #[.str k.1, .str (if k.2.1 == "" then "" else "ov"), .bool k.2.2, mvToJson (.sub m)]).toArray),
     ("hyp", Json.mkObj [
-      ("rt", Json.bool (rtCls S camel (levelOK S) c ms ov strict xc)),
+      ("rt", Json.bool (rtClsK S camel ku (levelOK S) c ms ov strict xc)),
+      ("rtNoKu", Json.bool (rtCls S camel (levelOK S) c ms ov strict xc)),
+      ("desNone", Json.bool c.des.isNone),
       ("dom", Json.bool (rtCls S camel (levelDom S) c ms ov strict xc)),
+      ("domE", Json.bool (rtCls S camel (levelDomE S) c ms ov strict xc)),
+      ("region", Json.bool (regionOK S c ov camel)),
+      ("regionWhy", Json.str (regionWhy S c ov camel)),
+      ("wf", Json.bool (wfFields c.fields)),
+      ("conf", Json.bool (conf c.fields x)),
       ("sync", Json.bool (syncOK ms md kvs)),
       ("nodot", Json.bool (noDotOK S ms kvs)),
       ("inj", Json.bool (injOK ms kvs)),
@@ -152,12 +212,12 @@ def runOne (cache : Cache) (j : Json) : Except String (List (String × Json) × 
     | none => pure []
     | some d => do
       let d2 ← treeOfJson d
-      pure [("deser2", resToJson (deser S camel c ov strict d2))]
+      pure [("deser2", resToJson (deserK S camel ku c ov strict d2))]
   let implLaw ← match optField j "impl_doc" with
     | none => pure []
     | some d => do
       let d ← treeOfJson d
-      pure [("implDeser", resToJson (deser S camel c ov strict d))]
+      pure [("implDeser", resToJson (deserK S camel ku c ov strict d))]
   pure (base ++ extra ++ implLaw, cache')
 
 /-- the history (`pre`, in order) and then the main call, all on one cache -/
